@@ -43,11 +43,14 @@ func init() {
 
 func genRace(o opts) []rcCase {
 	r := hk.Rng(o.seed + 151)
-	n := 16
+	n := 18
 	if o.tier == "thorough" {
 		n = 120
 	}
 	var cs []rcCase
+	for _, pm := range []string{"netrpc", "grpc"} {
+		cs = append(cs, rcCase{Kind: "reuse-id", Proto: pm, N: 2, K: 2})
+	}
 	for _, kind := range []string{"client-methods", "dispense", "broker", "shutdown", "accept-close"} {
 		for _, pm := range []struct {
 			p string
@@ -120,6 +123,9 @@ func runOneRace(c rcCase) (sx.V, sx.V, rcCase) {
 	}
 	if c.Kind == "accept-close" {
 		return runAcceptClose(c, prefix)
+	}
+	if c.Kind == "reuse-id" {
+		return runReuseID(c, prefix)
 	}
 	var perr syncBuf
 	o := vpOpts{Proto: c.Proto, Mux: c.Mux, Plugin: map[string]interface{}{"jitter_us": c.Jitter}, Stderr: &perr}
@@ -428,6 +434,31 @@ func runAcceptClose(c rcCase, prefix string) (sx.V, sx.V, rcCase) {
 				})
 			}(g)
 		}
+		// Dial racing Close (gRPC without multiplexing): the plugin accepts an id, the host dials it; the moment between taking
+		// the connection information and closing the entry's done channel is stretched by a hook point, and Close arrives in it
+		if gb := caller.GRPC(); gb != nil && !c.Mux && trial%2 == 1 {
+			plugin.VerifSetHook(func(name string, id uint32) {
+				if name == "grpc.dial.taking" {
+					time.Sleep(120 * time.Millisecond)
+				}
+			})
+			for g := 0; g < 4; g++ {
+				wg.Add(1)
+				go func(g int) {
+					defer wg.Done()
+					guard(func() {
+						id := uint32(900000 + trial*100 + g)
+						if _, err := caller.Call(vp.Req{Op: "accept", ID: id}); err != nil {
+							return
+						}
+						if cc, err := gb.Dial(id); err == nil {
+							cc.Close()
+						}
+					})
+				}(g)
+			}
+			time.Sleep(40 * time.Millisecond)
+		}
 		time.Sleep(time.Duration(3+(int(c.Seed)+trial*7)%25) * time.Millisecond)
 		var cw sync.WaitGroup
 		for k := 0; k < 2; k++ {
@@ -461,6 +492,67 @@ func runAcceptClose(c rcCase, prefix string) (sx.V, sx.V, rcCase) {
 	}
 	n, f := raceReports(prefix, os.Getpid())
 	rh = n
+	if first == "" {
+		first = f
+	}
+	np += int(atomic.LoadInt32(&racePanics))
+	if len(first) > 3000 {
+		first = first[:3000]
+	}
+	c.Note = first
+	return sx.L{sx.I(0), sx.I(0)}, sx.L{sx.I(rh), sx.I(rp), sx.I(np), sx.I(0), sx.L{}, sx.L{}}, c
+}
+
+// runReuseID: one id used again right after its first use (never two uses at the same time): the plugin dials, the host
+// accepts, and once more; for gRPC the plugin accepts and the host dials, twice.  The pending entry of the first use is
+// still in the broker's map while its expiry goroutine is on its way to remove it (a hook point holds that goroutine up
+// for a quarter of a second), so the second connection is parked in the same entry.  Nothing may panic.
+func runReuseID(c rcCase, prefix string) (sx.V, sx.V, rcCase) {
+	plugin.VerifSetHook(func(name string, id uint32) {
+		if name == "mux.timeout.wake" || name == "grpc.timeout.wake" {
+			time.Sleep(250 * time.Millisecond)
+		}
+	})
+	rp, np := 0, 0
+	first := ""
+	for trial := 0; trial < 3; trial++ {
+		var perr syncBuf
+		cl, caller, err := startVP(vpOpts{Proto: c.Proto, Stderr: &perr})
+		if err != nil {
+			continue
+		}
+		pid := cl.ReattachConfig().Pid
+		id := uint32(700000 + trial)
+		guard(func() {
+			for use := 0; use < 2; use++ {
+				if gb := caller.GRPC(); gb != nil {
+					if _, err := caller.Call(vp.Req{Op: "accept", ID: id}); err != nil {
+						return
+					}
+					cc, err := gb.Dial(id)
+					if err == nil {
+						cc.Close()
+					}
+				} else {
+					go caller.Call(vp.Req{Op: "dial", ID: id})
+					conn, err := caller.Mux().Accept(id)
+					if err == nil {
+						conn.Close()
+					}
+				}
+				time.Sleep(20 * time.Millisecond)
+			}
+		})
+		time.Sleep(400 * time.Millisecond)
+		boundedKill(cl)
+		n, f := raceReports(prefix, pid)
+		rp += n
+		if first == "" {
+			first = f
+		}
+		np += pluginPanics(perr.Bytes())
+	}
+	rh, f := raceReports(prefix, os.Getpid())
 	if first == "" {
 		first = f
 	}
